@@ -218,6 +218,17 @@ def range_cases(draw):
         if not any(c_.get("filter_method") == "bilateral" for _, c_ in pipe) and draw(st.booleans()):
             pipe.append(["filter.inv", {"filter_method": "bilateral", "sigma_space": draw(st.sampled_from([0.7, 1.0])),
                                         "sigma_color": draw(st.sampled_from([1.0, 2.0, 5.0]))}])
+    if draw(st.integers(0, 7)) == 0:
+        # saturated scene: a white left image over a black right image - every computable cost EQUALS the measure's maximal
+        # cost; with per-pixel grids the winner must still come from the pixel's own interval
+        H_, W_ = pair["H"], pair["W"]
+        pair = dict(pair, mode="indep", left=[[255] * W_ for _ in range(H_)], right=[[0] * W_ for _ in range(H_)], patch_left=[],
+                    mask_left=None, mask_right=None)
+        pair.pop("noise", None)
+        pipe = [["matching_cost", {"matching_cost_method": draw(st.sampled_from(["sad", "ssd"])), "window_size": draw(st.sampled_from([1, 3])),
+                                   "subpix": draw(st.sampled_from([1, 2]))}],
+                ["disparity", {"disparity_method": "wta", "invalid_disparity": -9999}]]
+        use_grid = True
     p = {"pair": pair, "AB": [A, B], "pipeline": pipe}
     if not use_grid and draw(st.integers(0, 3)) == 0:
         ra = -B + draw(st.sampled_from([-2, -1, 1]))
